@@ -148,7 +148,7 @@ class Gen:
         self.ensure_filled(r)
         n = len(self.sim[r].e)
         take = self.r.randint(0, n + 2)
-        fate = self.r.choice([0, 0, 0, 2, 2, 1])
+        fate = self.r.choice([0, 0, 0, 2, 2, 1, 3, 3])
         self.ops.append([34, r, take, fate])
         self.sim[r].e = []
 
@@ -194,7 +194,7 @@ class Gen:
         self.ensure_filled(r)
         n = len(self.sim[r].e)
         kind = self.r.randint(0, 2) if kind is None else kind
-        fate = self.r.choice([0, 0, 0, 2, 2, 1])
+        fate = self.r.choice([0, 0, 0, 2, 2, 1, 3, 3])
         self.ops.append([41, r, kind, self.r.randint(0, n + 2), fate])
         self.sim[r].e = []
 
@@ -297,7 +297,7 @@ class Gen:
     def s_drain(self, r):
         self.ensure_filled(r)
         n = len(self.sim[r].e)
-        fate = self.r.choice([0, 0, 0, 2, 2, 1])
+        fate = self.r.choice([0, 0, 0, 2, 2, 1, 3, 3])
         self.ops.append([134, r, self.r.randint(0, n + 2), fate])
         self.sim[r].e = []
 
@@ -320,7 +320,7 @@ class Gen:
     def s_into(self, r):
         self.ensure_filled(r)
         n = len(self.sim[r].e)
-        fate = self.r.choice([0, 0, 0, 2, 2, 1])
+        fate = self.r.choice([0, 0, 0, 2, 2, 1, 3, 3])
         self.ops.append([141, r, self.r.randint(0, n + 2), fate])
         self.sim[r].e = []
 
@@ -840,7 +840,7 @@ def consumer_fault_bases():
     fill_m = " ; ".join(f"10 0 {2 * i + 1} {5 + i} {2 * i + 2} {7 + i}" for i in range(4))
     fill_s = " ; ".join(f"110 2 {i + 1} {5 + i}" for i in range(4))
     for steps in (0, 1, 2):
-        for fate in (2, 0):
+        for fate in (2, 0, 3):
             for kind in (0, 1, 2):
                 b.append(f"0 0 0 0 4 2 4 2 ; {fill_m} ; 41 0 {kind} {steps} {fate} ; 20 0 0 5 ; 10 0 20 5 21 7")
             b.append(f"0 0 0 0 4 2 4 2 ; {fill_m} ; 34 0 {steps} {fate} ; 20 0 0 5 ; 10 0 20 5 21 7")
